@@ -57,11 +57,17 @@ pub fn tag(f: &[u8]) -> String {
     format!("raw:{}", summ(f))
 }
 
-pub fn tags(written: &[u8]) -> (String, Option<u32>) {
+pub fn tags(written: &[u8]) -> (String, Option<bool>) {
     let (fs, tail) = frames(written);
     let mut v: Vec<String> = fs.iter().map(|f| tag(f)).collect();
     if tail { v.push("tls".to_string()); }
-    let first_join = v.iter().find(|t| t.starts_with("cj:")).map(|t| t.split(':').nth(2).unwrap().parse::<u32>().unwrap());
+    // does the first join ask for the I/O channel?  (it does unless it asks for the user channel = initiator + 1001;
+    // the I/O channel id is whatever the server announced)
+    let first_join = v.iter().find(|t| t.starts_with("cj:")).map(|t| {
+        let ini = t.split(':').nth(1).unwrap().parse::<u32>().unwrap();
+        let ch = t.split(':').nth(2).unwrap().parse::<u32>().unwrap();
+        ch != ini + 1001
+    });
     (if v.is_empty() { "-".to_string() } else { v.join(",") }, first_join)
 }
 
@@ -125,11 +131,11 @@ fn op_conn_with(args: &[&str], public_api: bool) -> String {
         last = format!("{} w={} #a={} tries={}", res, t, a, attempt + 1);
         match first_join {
             None => break,
-            Some(ch) => {
-                // both entries can carry the same id (server-assigned user id 1003)
+            Some(global_first) => {
+                // both entries can carry the same id (server-assigned user id = I/O channel id)
                 let both: Vec<&str> = t.split(',').filter(|x| x.starts_with("cj:")).collect();
                 let same = both.len() == 2 && both[0] == both[1];
-                if same || (ch == 1003) == want_global_first { break; }
+                if same || global_first == want_global_first { break; }
             }
         }
     }
